@@ -12,10 +12,10 @@ W=/tmp/confirm-$ID
 rm -rf $W; git -C /repo worktree prune; git -C /repo worktree add -q --detach $W HEAD || exit 2
 cp $SRC/$DEMO $W/$DEST/ || exit 2
 cd $W
-echo "== demo on unchanged tree"; go test -count=1 -run "$RUN" ./$DEST/ 2>&1 | tail -3; A=${PIPESTATUS[0]}
+echo "== demo on unchanged tree"; go test ${DEMOFLAGS:-} -count=1 -run "$RUN" ./$DEST/ 2>&1 | tail -3; A=${PIPESTATUS[0]}
 echo "== apply patch"; git apply $SRC/patch.diff || { echo PATCH-FAILS; exit 2; }
 go build ./... || { echo BUILD-FAILS; exit 2; }
-echo "== demo with patch"; go test -count=1 -run "$RUN" ./$DEST/ 2>&1 | tail -6; B=${PIPESTATUS[0]}
+echo "== demo with patch"; go test ${DEMOFLAGS:-} -count=1 -run "$RUN" ./$DEST/ 2>&1 | tail -6; B=${PIPESTATUS[0]}
 rm -f $W/$DEST/$DEMO
 echo "== existing tests with patch: $PKGS"; go test -count=1 -vet=off $PKGS 2>&1 | tail -5; C=${PIPESTATUS[0]}
 cd /verif
